@@ -125,7 +125,7 @@ Section EncSound.
   Theorem enc_in_sound_nogfx : forall ms p x,
     forallb (rep_msg olt nok) ms = true -> forallb no_gfx_msg ms = true ->
     exists ls, enc_in json_enc nc_print ms = Ok ls /\
-               Forall (fun l => wf_in_line js jm ncp l = true) ls /\
+               Forall (fun l => effs_line js jm ncp l = true) ls /\
                fst (sem (p, x) ls) = run_msgs p ms.
   Proof.
     intros ms p x R G. destruct (msgs_seg ms R G) as (ls & E & [W S]).
